@@ -28,6 +28,15 @@ verus! {
 //@include spec/tx.rs
 //@include spec/sighash.rs
 //@include shims/varint.rs
+impl TxIn {
+//@stubrest TxIn
+}
+impl TxOut {
+//@stubrest TxOut
+}
+impl Script {
+//@stubrest Script
+}
 impl HashCache {
 //@fn HashCache::new
 }
